@@ -1,5 +1,7 @@
 # coding: utf-8
 """C15 — a circular record behaves as a circle, never as a line."""
+EXTRA_OBLIGATION_FILES = ("Props/C15_src.v",)
+
 import itertools
 
 from harness import common, recutil
